@@ -184,6 +184,31 @@ func init() {
 							}
 						}
 					})
+					// helpers called from the checker must not read the general threshold at all
+					checkers := map[*ssa.Function]bool{}
+					for _, h := range hotspotCheckers(c.P) {
+						checkers[h] = true
+					}
+					seenH := map[*ssa.Function]bool{}
+					var visit func(g *ssa.Function, d int)
+					visit = func(g *ssa.Function, d int) {
+						for _, ci := range callsIn(g) {
+							cal := ci.Common().StaticCallee()
+							if cal == nil || checkers[cal] || seenH[cal] || relPkg(fnPkgPath(cal)) != "core/hotspot" || d > 2 {
+								continue
+							}
+							seenH[cal] = true
+							eachInstr(cal, func(ins ssa.Instruction) {
+								if ld, ok := ins.(*ssa.UnOp); ok && ld.Op == token.MUL {
+									if p := accessPath(ld); strings.HasSuffix(p, ".threshold") && !strings.Contains(p, "specificItems") {
+										stray = c.P.Pos(ld.Pos()) + " (in " + fnKey(cal) + ")"
+									}
+								}
+							})
+							visit(cal, d+1)
+						}
+					}
+					visit(f, 0)
 					c.Check(stray == "", fnKey(f)+" / general-threshold-only-as-default", f.Pos(), "the rule's general threshold is read only as the default of the per-value choice (stray use: %s)", stray)
 					continue
 				}
